@@ -1006,6 +1006,10 @@ def sweep_inputs(name: str):
         for t in range(256):
             for st in range(256):
                 yield w.UPDATE, _upd([w.encode_attr(w.EXT_COMMUNITIES, bytes([t, st, 1, 2, 3, 4, 5, 6]))], nlri=True)
+                # values a sub-type may read as a number of its own kind: all ones, and the IEEE 754 specials
+                # (infinity, NaN) in the last four octets
+                for val in (b'\xff' * 6, bytes.fromhex('00007f800000'), bytes.fromhex('00007fc00000')):
+                    yield w.UPDATE, _upd([w.encode_attr(w.EXT_COMMUNITIES, bytes([t, st]) + val)], nlri=True)
     elif name == 'ipv6-extended-community':
         for t in (0x00, 0x40, 0x80):
             for st in range(256):
